@@ -26,7 +26,15 @@ PVSort = z3.ArraySort(Ref, R)          # Parameter object -> current value  (the
 RealArr = z3.ArraySort(I, R)
 IntArr = z3.ArraySort(I, I)
 RefArr = z3.ArraySort(I, Ref)
-RealMat = z3.ArraySort(I, I, R)
+RealMat = z3.ArraySort(I, z3.ArraySort(I, R))   # nested (cvc5 1.0 has no multi-index arrays)
+
+
+def msel(M, i, j):
+    return z3.Select(z3.Select(M, i), j)
+
+
+def mstore(M, i, j, v):
+    return z3.Store(M, i, z3.Store(z3.Select(M, i), j, v))
 
 _funcs: dict[str, z3.FuncDeclRef] = {}
 
